@@ -561,7 +561,10 @@ def _who_may_write(ctx, model):
                         q = (m.name, f"{c.name}.{name}")
                         is_node = c.key in node_keys or c.name == "Expression"
                         tgt = ast.unparse(call.args[0]) if call.args else "?"
-                        ok = q in ALLOWED_SETATTR_FUNCS or (
+                        own_post_init = (
+                            name == "__post_init__" and tgt == "self"
+                            and c.key in node_keys and nt.table[c.key].decorated)
+                        ok = q in ALLOWED_SETATTR_FUNCS or own_post_init or (
                             not is_node and tgt == "self"
                             and not model.is_subclass(c, mapper_base))
                         ctx.ob(f"O/setattr/{c.name}.{name}:{tgt}", ok,
